@@ -17,8 +17,16 @@ from common import Machinery, seed  # noqa: E402
 CHECKS = {
     "C05": ("p_calls", "c05"),
     "C06": ("p_calls", "c06"),
-    "C07": ("p_calls", "c07"),
+    "C07": ("p_engine", "c07"),
     "C14": ("p_calls", "c14"),
+    "C01": ("p_engine", "c01"),
+    "C02": ("p_engine", "c02"),
+    "C03": ("p_engine", "c03"),
+    "C04": ("p_engine", "c04"),
+    "C08": ("p_engine", "c08"),
+    "C09": ("p_engine", "c09"),
+    "C10": ("p_engine", "c10"),
+    "C17": ("p_engine", "c17"),
 }
 
 
